@@ -26,7 +26,12 @@ class JsonRPC:
     def wsgi_app(self, environ: Dict[str, Any], start_response: Callable[..., Any]) -> Iterable[bytes]:
         environ['app'] = self
         request = werkzeug.Request(environ)
-        response = self._rpc_handle(request)
+        try:
+            response = self._rpc_handle(request)
+        except exceptions.HTTPException as e:
+            # an http error (415, 400) is the response, not a failure of the wsgi application
+            response = e  # type: ignore[assignment]
+
         return response(environ, start_response)
 
     @property
